@@ -157,15 +157,28 @@ def r09_2(rep: Report, idx: Index) -> None:
     mt = rep.repo.tree(MC)
     mcls = need(find_class(mt, 'ManifestContext'), 'ManifestContext')
     cg = need(find_func(mcls, 'calculate_cgi_parameters'), 'calculate_cgi_parameters')
-    excl = set()
+    # the parameter set handed to the collection as `patch=` (directly or through a local)
+    patch_src = None
     for n in ast.walk(cg):
-        if isinstance(n, ast.Assign) and norm(n.targets[0]) == 'patch_cgi_params':
-            for c in ast.walk(n.value):
-                if isinstance(c, ast.Call) and isinstance(c.func, ast.Attribute) and c.func.attr == 'union':
-                    try:
-                        excl |= set(ast.literal_eval(c.args[0]))
-                    except Exception:
-                        pass
+        if isinstance(n, ast.Call) and call_name(n) == 'CgiParameterCollection':
+            v = next((k.value for k in n.keywords if k.arg == 'patch'), None)
+            if isinstance(v, ast.Name):
+                ds = [a_ for a_ in ast.walk(cg) if isinstance(a_, ast.Assign) and norm(a_.targets[0]) == v.id]
+                v = ds[0].value if len(ds) == 1 else None
+            patch_src = v
+    if not (isinstance(patch_src, ast.Call) and (call_name(patch_src) or '').endswith('generate_cgi_parameters')):
+        raise AnalysisError('calculate_cgi_parameters: the patch parameter set is not produced by '
+                            'generate_cgi_parameters')
+    excl = set()
+    for c_ in ast.walk(patch_src):
+        if isinstance(c_, ast.Call) and isinstance(c_.func, ast.Attribute) and c_.func.attr == 'union' and c_.args:
+            arg = c_.args[0]
+            if isinstance(arg, ast.Call) and norm(arg.func) in ('frozenset', 'set') and arg.args:
+                arg = arg.args[0]
+            try:
+                excl |= set(ast.literal_eval(arg))
+            except Exception:
+                pass
     c = f'{MQ}::ServePatch.get'
     if forced and forced_cgi == excl and all(v == 'True' for v in forced.values()):
         rep.ok(rid, c, 'forced options == excluded query names', f'{sorted(forced)} / {sorted(excl)}')
@@ -175,13 +188,12 @@ def r09_2(rep: Report, idx: Index) -> None:
                  f'excludes {sorted(excl)}: the patch is rendered under a different option vector '
                  'than the manifest it patches', get)
     # patch query carries everything else: generated without a usage mask
-    for n in ast.walk(cg):
-        if isinstance(n, ast.Assign) and norm(n.targets[0]) == 'patch_cgi_params':
-            if any(k.arg == 'use' for k in n.value.keywords):
-                rep.fail(rid, f'{MC}::ManifestContext.calculate_cgi_parameters', 'patch query unmasked',
-                         'patch parameters are filtered by a usage mask', n)
-            else:
-                rep.ok(rid, f'{MC}::ManifestContext.calculate_cgi_parameters', 'patch query unmasked')
+    if any(k.arg == 'use' and not (isinstance(k.value, ast.Constant) and k.value.value is None)
+           for k in patch_src.keywords):
+        rep.fail(rid, f'{MC}::ManifestContext.calculate_cgi_parameters', 'patch query unmasked',
+                 'patch parameters are filtered by a usage mask', patch_src)
+    else:
+        rep.ok(rid, f'{MC}::ManifestContext.calculate_cgi_parameters', 'patch query unmasked')
     # same option pipeline as ServeManifest: calculate_options(mode='live', restrictions, features)
     sm = need(find_func(need(find_class(tree, 'ServeManifest'), 'ServeManifest'), 'get'), 'ServeManifest.get')
 
